@@ -16,6 +16,11 @@ Theorem C18_refuted : ~ C18_statement.
 Proof. exact statement_refuted. Qed.
 Print Assumptions C18_refuted.
 
+(** the evaluator applied to the observed outputs (Extract/Cases.v) is the model *)
+Theorem C18_evaluator_full : forall p, y_emit_fast p = y_emit p.
+Proof. exact y_emit_fast_eq. Qed.
+Print Assumptions C18_evaluator_full.
+
 (* ---------------- names and forms (all declaration lists) ---------------- *)
 
 (** value bindings: exactly the exported constants, non-generic functions and variables, each under
